@@ -325,6 +325,18 @@ def replay_query(inputs, label, prop, strat, n, mode, b):
     return False, "not reproduced"
 
 
+def validate_query(inputs, prop, strat, n, mode, b):
+    """translator validation: the real query on the inputs of a proven symbolic path (the model's seed and stub-model
+    table); returns the predicates the real run violates (expected: none)"""
+    a = ADAPTERS[strat]
+    s = real_scenario(inputs, n, mode)
+    env = Env()
+    qs = a.make(s.seed, sym=False, inputs=inputs)
+    out = a.call(qs, s, b, False, table=inputs.get("__clf__"))
+    check_result(env, prop, out, s, b, selection=a.selection)
+    return sorted(env.violated)
+
+
 def _short(out):
     try:
         if isinstance(out, tuple):
@@ -424,7 +436,7 @@ def make_stub_clusterer():
             labs = [c.choose([(k, True) for k in range(self.n_clusters)], f"cluster[{i}]") for i in range(n)]
             if not hasattr(c, "inputs"):
                 c.inputs = {}
-            c.inputs["__clusters__"] = labs
+            c.inputs.setdefault("__clusters__", []).append(list(labs))     # one label list per clustering call
             return arrays.SymNd(np.array(labs, dtype=int))
 
         def fit(self, X, y=None):
@@ -434,12 +446,21 @@ def make_stub_clusterer():
 
 
 def real_table_clusterer(labels):
+    """replay clusterer: the k-th fit_predict call returns the k-th recorded label list (a flat list = every call)"""
+    calls = labels if labels and isinstance(labels[0], (list, tuple)) else [labels]
+    state = dict(k=0)
+
     class TableClusterer:
         def __init__(self, n_clusters=2, random_state=None, **kw):
             self.n_clusters = n_clusters
 
         def fit_predict(self, X, y=None):
-            return np.array(labels[:len(X)], dtype=int)
+            lab = calls[min(state["k"], len(calls) - 1)]
+            state["k"] += 1
+            out = np.zeros(len(X), dtype=int)
+            for i in range(min(len(X), len(lab))):
+                out[i] = min(int(lab[i]), self.n_clusters - 1)
+            return out
     return TableClusterer
 
 
